@@ -272,13 +272,19 @@ func lemmaCmpTrans(a, b, c Object) (ab, bc, ac int, eab, ebc, eac bool) {
 
 //@ define missmono() = forallv(func(x *Environment) bool { return implies(old(allocated(x)), x.getMiss >= old(x.getMiss)) })
 
+// makeRef (C04): resolving a name outside the receiver's own scope to anything but a constant or a function is
+// counted as a miss in the receiver (what makes the current call uncacheable).
 //@ func (*Environment).makeRef
 //@   requires e != nil
 //@   modifies Environment.getMiss, key MH:Str:Iface, key MV:Str:Iface
 //@   nosafety
 //@   maypanic *
-//@   loop 1 invariant @C04 missmono()
+//@   loop 1 invariant @C04 missmono() && orig == e0 && orig.getMiss == old(orig.getMiss)
 //@   ensures  @C04 mono:: missmono()
+//@   witness isconst = callresult after Constant#1
+//@   witness target = callresult after ObjValue#1
+//@   ensures  @C04 looked:: implies(result1 && !(captured(isconst) && isconst), captured(target))
+//@   ensures  @C04 counted:: implies(result1 && captured(target) && !isType(target, Function), e.getMiss == old(e.getMiss) + 1)
 //@   property C04
 
 //@ func (*Environment).SetNoChecks
